@@ -36,6 +36,7 @@ LEVEL_TEXT = (
 LEVEL_NOTE = "Trusts the math module and the reference formulas in vf/oracle/scales_ref.py; real-valued quantifier is sampled."
 ANCHOR_FILES = ("src/pydrobert/speech/scales.py",)
 EXHAUSTIVE_PARTS = []
+SUITE_TESTS = ['tests/test_scales.py', 'tests/test_filters.py']  # the repository's own tests as an extra monitored workload (thorough tier)
 
 REL_REF, ABS_REF = 1e-12, 1e-10
 RT = 1e-9
@@ -308,6 +309,10 @@ def plan(tier, seed):
 
 
 def run_shard(spec, rec):
+    if "suite" in spec:
+        from .. import suite
+
+        return suite.run(__name__.rsplit(".", 1)[-1], spec, rec)
     mon = ScaleMonitor(rec)
     mon.attach()
     for case in spec["cases"]:
